@@ -81,9 +81,6 @@ def run(ctx):
         raise vlib.Infra("driver returned %d results for %d jobs" % (len(recs), len(behs) + job["random"]))
 
     steered = [r for r in recs if r["kind"] == "replay" and r["steered"]]
-    if len(steered) < len(behs) // 4:
-        raise vlib.Infra("dead driver: only %d of %d behaviours could be steered; first reasons: %s" % (
-            len(steered), len(behs), [r.get("why") for r in recs if not r["steered"]][:5]))
     mism = [r for r in steered if r["result"] != r["expected"]]
     ctx.cov["evaluations"] = len(recs)
     ctx.cov["steered_replays"] = len(steered)
@@ -106,6 +103,10 @@ def run(ctx):
         sig = signature(r["events"])
         ctx.violation(sig, "real trace is not a behaviour of Fallback.tla satisfying C20 (rejected at event %s: %s)" % (
             info.get("line_in_trace"), info.get("event")), r)
+    if not ctx.violations and not ctx.known_hits and len(steered) < len(behs) // 4:
+        # nothing was rejected, but the schedules could not be forced either: no verdict
+        raise vlib.Infra("dead driver: only %d of %d behaviours could be steered; first reasons: %s" % (
+            len(steered), len(behs), [r.get("why") for r in recs if not r["steered"]][:5]))
     for r in (mism[:2] + steered[:2] + [x for x in recs if x["kind"] == "random"][:1]):
         ctx.sample({"kind": r["kind"], "expected": r.get("expected"), "result": r["result"], "events": r["events"]})
     if mism and not rej:
